@@ -216,6 +216,10 @@ func (st Style) expr(e GExpr) string {
 		l := st.operand(x.L, p)   // equal precedence on the left groups naturally
 		r := st.operand(x.R, p+1) // equal precedence on the right needs parentheses
 		op := x.Op
+		if st.Rng != nil && op == "and" && st.Rng.Intn(3) == 0 {
+			// the symbolic spelling of and (there is none for or: `|` always starts a filter)
+			return l + st.sp() + "&&" + st.sp() + r
+		}
 		if isWordOp(op) {
 			return l + st.wsp() + strings.ReplaceAll(op, " ", st.wsp()) + st.wsp() + r
 		}
